@@ -100,6 +100,8 @@ class FrozenParameterGate(
         See :class:`~bqskit.ir.gate.Gate` for more info.
         """
         grads = self.gate.get_grad(self.get_full_params(params))
+        if self.gate.num_params == 0:
+            return grads
         return grads[self.unfixed_param_idxs, :, :]
 
     def get_unitary_and_grad(
@@ -114,6 +116,8 @@ class FrozenParameterGate(
         f_params = self.get_full_params(params)
 
         utry, grads = self.gate.get_unitary_and_grad(f_params)
+        if self.gate.num_params == 0:
+            return utry, grads
         return utry, grads[self.unfixed_param_idxs, :, :]
 
     def optimize(self, env_matrix: npt.NDArray[np.complex128]) -> list[float]:
